@@ -45,12 +45,12 @@ func main() {
 		if *prof != "" {
 			f, _ := os.Create(*prof)
 			pprof.StartCPUProfile(f)
-			rc := core.RunBatch(core.Options{ID: os.Args[2], Tier: *tier, Seed: *seed, Workers: *workers, VerifDir: verif, RunsOverride: *runs, NoShrink: *noshrink})
+			rc := core.RunBatch(core.Options{ID: os.Args[2], Tier: *tier, Seed: *seed, Workers: *workers, VerifDir: verif, OutDir: os.Getenv("VISIM_OUT"), RunsOverride: *runs, NoShrink: *noshrink})
 			pprof.StopCPUProfile()
 			f.Close()
 			os.Exit(rc)
 		}
-		os.Exit(core.RunBatch(core.Options{ID: os.Args[2], Tier: *tier, Seed: *seed, Workers: *workers, VerifDir: verif, RunsOverride: *runs, NoShrink: *noshrink}))
+		os.Exit(core.RunBatch(core.Options{ID: os.Args[2], Tier: *tier, Seed: *seed, Workers: *workers, VerifDir: verif, OutDir: os.Getenv("VISIM_OUT"), RunsOverride: *runs, NoShrink: *noshrink}))
 	case "hashes":
 		if len(os.Args) < 3 {
 			usage()
